@@ -573,9 +573,13 @@ Qed.
 Definition rec_acc_ok (acc : stage * list nat * list nat) : Prop :=
   let '(s, fin, val) := acc in KR s /\ Forall (in_range s) fin /\ Forall (in_range s) val.
 
-Lemma KR_recover_one acc kv : rec_acc_ok acc -> rec_acc_ok (recover_one acc kv).
+Lemma KR_drop_wait s n : KR s -> KR (set_waits (aremove n (waits s)) s).
+Proof. intros K. eapply KR_same; [| | | | | |exact K]; reflexivity. Qed.
+
+Lemma KR_recover_rest s fin val n c :
+  rec_acc_ok (s, fin, val) -> rec_acc_ok (recover_rest s fin val n c).
 Proof.
-  destruct acc as [[s fin] val]. destruct kv as [n c]. intros [K [Hf Hv]]. unfold recover_one.
+  intros [K [Hf Hv]]. unfold recover_rest.
   assert (App : forall s0 st, KR s0 -> ST_UNKNOWN <= st <= ST_LOGGED ->
                 KR (set_heap (heap s0 ++ [comp_to_obj n c st]) s0) /\
                 in_range (set_heap (heap s0 ++ [comp_to_obj n c st]) s0) (length (heap s0)) /\
@@ -583,30 +587,40 @@ Proof.
   { intros s0 st K0 Hst. split; [apply KR_heap_app; auto|]. split.
     - unfold in_range. simpl. rewrite app_length. simpl. lia.
     - intros l Hl. apply (Forall_in_range_mono s0); auto. simpl. rewrite app_length. lia. }
-  destruct (ahas n (waits s)).
-  - destruct (App s ST_VALIDATED K ltac:(unfold ST_UNKNOWN, ST_VALIDATED, ST_LOGGED; lia)) as [K1 [R1 M1]].
-    split; [exact K1|]. split; [apply Forall_app; split; [apply M1; auto | constructor; [exact R1|constructor]] | apply M1; auto].
-  - destruct (ahas n (fulls s)).
-    + destruct (App s ST_RECEIVED K ltac:(unfold ST_UNKNOWN, ST_RECEIVED, ST_LOGGED; lia)) as [K1 [R1 M1]].
-      split; [exact K1|]. split; [apply M1; auto | apply Forall_app; split; [apply M1; auto | constructor; [exact R1|constructor]]].
-    + destruct (alookup n (parts s)) as [sf|].
-      * destruct (complete (c_parts c) (c_size c)); [|split; [exact K | split; [exact Hf | exact Hv]]].
-        set (s1 := set_fulls (aset n (sf_data sf) (fulls s)) (set_parts (aremove n (parts s)) s)).
-        assert (K1 : KR s1) by (eapply KR_same; [| | | | | |exact K]; reflexivity).
-        destruct (App s1 ST_RECEIVED K1 ltac:(unfold ST_UNKNOWN, ST_RECEIVED, ST_LOGGED; lia)) as [K2 [R2 M2]].
-        split; [exact K2|]. split; [apply M2; exact Hf | apply Forall_app; split; [apply M2; exact Hv | constructor; [exact R2|constructor]]].
-      * set (tgt := match c_renamed c with [] => n | r => r end).
-        destruct (alookup tgt (flcks s)); (split; [eapply KR_same; [| | | | | |exact K]; reflexivity | split; auto]).
+  destruct (ahas n (fulls s)).
+  + destruct (App s ST_RECEIVED K ltac:(unfold ST_UNKNOWN, ST_RECEIVED, ST_LOGGED; lia)) as [K1 [R1 M1]].
+    split; [exact K1|]. split; [apply M1; auto | apply Forall_app; split; [apply M1; auto | constructor; [exact R1|constructor]]].
+  + destruct (alookup n (parts s)) as [sf|].
+    * destruct (complete (c_parts c) (c_size c)); [|split; [exact K | split; [exact Hf | exact Hv]]].
+      set (s1 := set_fulls (aset n (sf_data sf) (fulls s)) (set_parts (aremove n (parts s)) s)).
+      assert (K1 : KR s1) by (eapply KR_same; [| | | | | |exact K]; reflexivity).
+      destruct (App s1 ST_RECEIVED K1 ltac:(unfold ST_UNKNOWN, ST_RECEIVED, ST_LOGGED; lia)) as [K2 [R2 M2]].
+      split; [exact K2|]. split; [apply M2; exact Hf | apply Forall_app; split; [apply M2; exact Hv | constructor; [exact R2|constructor]]].
+    * set (tgt := match c_renamed c with [] => n | r => r end).
+      destruct (alookup tgt (flcks s)); (split; [eapply KR_same; [| | | | | |exact K]; reflexivity | split; auto]).
 Qed.
 
-Lemma KR_recover_fold : forall (l : list (name * comp)) acc, rec_acc_ok acc -> rec_acc_ok (fold_left recover_one l acc).
+Lemma KR_recover_one acc kv : rec_acc_ok acc -> rec_acc_ok (recover_one H acc kv).
+Proof.
+  destruct acc as [[s fin] val]. destruct kv as [n c]. intros [K [Hf Hv]]. unfold recover_one.
+  destruct (alookup n (waits s)) as [b|]; [|apply KR_recover_rest; split; [exact K | split; [exact Hf | exact Hv]]].
+  destruct (name_eqb (H b) (c_hash c)).
+  - split; [apply KR_heap_app; [exact K | simpl; unfold ST_UNKNOWN, ST_VALIDATED, ST_LOGGED; lia]|].
+    assert (M : forall l, Forall (in_range s) l -> Forall (in_range (set_heap (heap s ++ [comp_to_obj n c ST_VALIDATED]) s)) l).
+    { intros l Hl. apply (Forall_in_range_mono s); auto. simpl. rewrite app_length. lia. }
+    split; [apply Forall_app; split; [apply M; auto | constructor; [|constructor]] | apply M; auto].
+    unfold in_range. simpl. rewrite app_length. simpl. lia.
+  - apply KR_recover_rest. split; [apply KR_drop_wait; exact K|]. split; [exact Hf | exact Hv].
+Qed.
+
+Lemma KR_recover_fold : forall (l : list (name * comp)) acc, rec_acc_ok acc -> rec_acc_ok (fold_left (recover_one H) l acc).
 Proof. induction l as [|x r IH]; intros acc A; simpl; auto. apply IH, KR_recover_one; auto. Qed.
 
 Lemma KR_recover s now : KR s -> KR (recover H s now).
 Proof.
   intros K. unfold recover.
   pose proof (KR_recover_fold (cmps s) (s, [], []) (conj K (conj (Forall_nil _) (Forall_nil _)))) as A.
-  destruct (fold_left recover_one (cmps s) (s, [], [])) as [[s1 fin] val]. destruct A as [K1 [Hf Hv]].
+  destruct (fold_left (recover_one H) (cmps s) (s, [], [])) as [[s1 fin] val]. destruct A as [K1 [Hf Hv]].
   assert (K2 := KR_build_cache s1 now (now - 86400) K1).
   pose proof (heap_len_build_cache s1 now (now - 86400)) as L2.
   set (s2 := build_cache s1 now (now - 86400)) in *.
